@@ -22,12 +22,17 @@ Alphabets ==
                 <<65,95>>, <<45,46>>, <<97>>, <<63,107,61,118>>, <<35,115>>, <<453>>, <<110,112,109>>, <<46,47>>, <<46,46,47>> >>,
    \* pieces of a namespace / subpath, each followed by '/':  a  (empty)  .  ..  %2e  %2E  .%2e  %2F  %2f  %5C  ...  %2e%2E
    nsseg |-> Pieces, subseg |-> Pieces,
+   \* every upper-case letter and digit as a one-character key / in a type: X=1&  and  X
+   upkeys |-> [i \in 1..36 |-> <<IF i <= 26 THEN 64 + i ELSE 21 + i, 61, 49, 38>>],
+   uptype |-> [i \in 1..36 |-> <<IF i <= 26 THEN 64 + i ELSE 21 + i>>],
    \* whole qualifiers: ka=1& k_=2& kb=3& K_=4& k1=5& KA=6&
    quals2 |-> << <<107,97,61,49,38>>, <<107,95,61,50,38>>, <<107,98,61,51,38>>, <<75,95,61,52,38>>, <<107,49,61,53,38>>, <<75,65,61,54,38>> >>]
 Prefixes == [sep |-> PKG, path |-> PKG, qual |-> PKG \o <<116, 47, 110, 63>>, typed |-> PKG,
-             nsseg |-> PKG \o <<116, 47>>, subseg |-> PKG \o <<116, 47, 110, 35>>, quals2 |-> PKG \o <<116, 47, 110, 63>>]
+             nsseg |-> PKG \o <<116, 47>>, subseg |-> PKG \o <<116, 47, 110, 35>>, quals2 |-> PKG \o <<116, 47, 110, 63>>,
+             upkeys |-> PKG \o <<116, 47, 110, 63>>, uptype |-> PKG \o <<116>>]
 Suffixes == [sep |-> <<>>, path |-> <<>>, qual |-> <<>>, typed |-> <<>>,
-             nsseg |-> <<110>>, subseg |-> <<>>, quals2 |-> <<122, 61, 57>>]
+             nsseg |-> <<110>>, subseg |-> <<>>, quals2 |-> <<122, 61, 57>>,
+             upkeys |-> <<95, 61, 57>>, uptype |-> <<47, 110>>]
 Alphabet == Alphabets[SUITE]
 Prefix == Prefixes[SUITE]
 
